@@ -4,6 +4,7 @@ import (
 	"encoding/json"
 	"fmt"
 	"strings"
+	"time"
 )
 
 // negotiatedFromRec rebuilds what was agreed on the wire from a node's own record.
@@ -152,14 +153,34 @@ func (m *monC05) OnObs(w *World, o *Obs) {
 	}
 	if expiry >= refund {
 		b, _ := DecodePayreqBody(o.Pay.Payreq)
-		w.Violate("C05", fmt.Sprintf("htlc-can-outlive-csv:%s", w.Nodes[o.Node].Flavor), "node %d (%s) sent the claim payment of swap %.8s at height %d with a permitted route CLTV of %d (invoice final CLTV %d): the HTLC can stay open until block %d, the maker can confirm a CSV refund in block %d (opening confirmed at %d)", o.Node, w.Nodes[o.Node].Flavor, si.ID, payH, pm.Permitted, b.C, expiry, refund, confH)
+		// Was the payment made inside the window the taker itself measures (first
+		// recorded start height + CSV/2)? Then the overlap comes from how the window,
+		// the accepted invoice CLTV and the route padding add up (and from openings
+		// confirmed before the taker's start); otherwise the taker left its own window.
+		bucket := "within-own-window"
+		first := uint32(0)
+		for _, x := range w.Obs {
+			if x.Kind == "store.write" && x.Node == o.Node && x.Store.SwapID == si.ID && x.Store.Raw != nil {
+				if r := DecodeRec(x.Store.Raw); r != nil && r.Data.StartingBlockHeight != 0 {
+					first = r.Data.StartingBlockHeight
+					break
+				}
+			}
+		}
+		if first == 0 || payH > first+504 {
+			bucket = "outside-own-window"
+		}
+		w.Violate("C05", fmt.Sprintf("htlc-can-outlive-csv:%s:%s", bucket, w.Nodes[o.Node].Flavor), "node %d (%s) sent the claim payment of swap %.8s at height %d with a permitted route CLTV of %d (invoice final CLTV %d): the HTLC can stay open until block %d, the maker can confirm a CSV refund in block %d (opening confirmed at %d)", o.Node, w.Nodes[o.Node].Flavor, si.ID, payH, pm.Permitted, b.C, expiry, refund, confH)
 	}
 }
 
 // ---------------------------------------------------------------------------
 // C04 — Liquid claim payments only inside the anchored window, bounded CLTV.
 
-type monC04 struct{ base }
+type monC04 struct {
+	base
+	lastAttempt map[string]time.Duration // task -> time of its previous payment attempt
+}
 
 func (m *monC04) Name() string { return "C04" }
 
@@ -185,6 +206,20 @@ func (m *monC04) OnObs(w *World, o *Obs) {
 	// the height this very task was last told (its knowledge when it decided);
 	// with the electrum watcher the task reads the watcher's cached height
 	h, ok := n.ServedHeightToTask(o.Task, "lbtc")
+	if ok {
+		// the reading must be fresh for this attempt: a height obtained before the
+		// previous attempt is not knowledge about the tip any more, the node could have asked
+		if m.lastAttempt == nil {
+			m.lastAttempt = map[string]time.Duration{}
+		}
+		if at, ok2 := n.ServedAtToTask(o.Task, "lbtc"); ok2 {
+			if prev, had := m.lastAttempt[o.Task]; had && at <= prev {
+				w.Probe("C04:stale-height-for-retry")
+				h = w.LBTC.Height()
+			}
+		}
+		m.lastAttempt[o.Task] = o.T
+	}
 	if !ok {
 		// electrum (LWK) back-end: the task read the watcher's cached height, which
 		// the simulator cannot observe; the window bounds are not judged here.
@@ -298,6 +333,21 @@ func (m *monC12) OnObs(w *World, o *Obs) {
 		if idx >= 0 && idx < len(w.Plan.Ops) && strings.HasPrefix(w.Plan.Ops[idx].Kind, "premium-") && strings.HasSuffix(o.Str, "|") {
 			op := w.Plan.Ops[idx]
 			m.ref(w, o.Node).Apply(&op, NodePubkey(op.Peer))
+		}
+	case "pay.call":
+		if !isReal(w, o.Node) || o.Pay == nil || o.Pay.Fn != "PayInvoiceViaChannel" {
+			return
+		}
+		if b, err := DecodePayreqBody(o.Pay.Payreq); err == nil {
+			for _, si := range m.tr.Swaps[o.Node] {
+				if si.Rec != nil && si.Rec.Data.SwapOutAgreement != nil && si.Rec.Data.SwapOutAgreement.Payreq == o.Pay.Payreq {
+					est := ownFeeEstimate(w, o.Node, si.Rec.Chain())
+					w.Probe("C12:fee-attempt-checked")
+					if b.A/1000 > 3*est {
+						w.Violate("C12", "fee-attempt-above-3x-estimate", "node %d tried to pay a fee invoice of %d msat, its own opening-fee estimate is %d sat", o.Node, b.A, est)
+					}
+				}
+			}
 		}
 	case "htlc.add":
 		if !isReal(w, o.Node) || o.Pay == nil {
